@@ -201,7 +201,7 @@ class SetMetadata(PutMetadata):
         metadata = self.metadata
 
         object_type = self.object.get_type()
-        object_id = self.object.get_id()
+        object_id = self.object.get_id_in_literal()
 
         prefix = ql(defines.EDGEDB_VISIBLE_METADATA_PREFIX)
         desc = ql(json.dumps(metadata))
@@ -251,7 +251,7 @@ class UpdateMetadata(PutMetadata):
         '''))
 
         object_type = self.object.get_type()
-        object_id = self.object.get_id()
+        object_id = self.object.get_id_in_literal()
 
         return textwrap.dedent(f'''\
             IF {upd_v} IS NOT NULL THEN
@@ -323,7 +323,7 @@ class UpdateMetadataSection(UpdateMetadataSectionMixin, PutMetadata):
         '''))
 
         object_type = self.object.get_type()
-        object_id = self.object.get_id()
+        object_id = self.object.get_id_in_literal()
 
         return textwrap.dedent(f'''\
             IF {upd_v} IS NOT NULL THEN
